@@ -31,6 +31,10 @@ func NewValueFromString(typ Type, data string) (Value, error) {
 		if err := json.Unmarshal([]byte(data), &number); err != nil {
 			return nil, err
 		}
+		if number == nil {
+			// the JSON literal null unmarshals into a nil pointer
+			return nil, errors.New("number must not be null")
+		}
 		value = number
 	case TypeMonetary:
 		parts := strings.SplitN(data, " ", 2)
